@@ -13,6 +13,7 @@ import ast
 
 import z3
 
+from pyvc.execu import z3ify
 from pyvc.main import Prop
 from pyvc.values import Fn, Obj, Opaque, Undecided
 from . import C14  # noqa: F401  (installs the extra Vec methods: masked_fill, clip, device)
@@ -36,6 +37,199 @@ def mx_getattr(self, ex, st, name):
 if not hasattr(MX, "_orig_getattr"):
     MX._orig_getattr = MX.getattr
     MX.getattr = mx_getattr
+
+
+def nd_contracts(P):
+    """Handlers, get_distribution and apply_mask on the exact N-d model: B rows (symbolic), component counts concrete.
+    A distribution object is opaque except for its defining tensors; log_prob/entropy/sample of distribution number i are the
+    uninterpreted per-element functions LP(i, row, [component,] value), EN(i, row[, component]), SM(i, row[, component])."""
+    from . import ndt
+    from .ndt import ND
+    I, Re = z3.IntSort(), z3.RealSort()
+    B = z3.Int("B_rows")
+    LP = z3.Function("dist_logp", I, I, I, Re, Re)      # (distribution id, row, component, value)
+    EN = z3.Function("dist_entropy", I, I, I, Re)
+    SM = z3.Function("dist_sample", I, I, I, Re)
+    ACT = z3.Function("given_action", I, I, Re)
+    LOG = z3.Function("net_logits", I, I, Re)
+    MSK = z3.Function("given_mask", I, I, Re)
+    LSTD = z3.Function("log_std", I, Re)
+    EXP = z3.Function("exp", Re, Re)
+
+    class Dist:
+        """torch.distributions object: elementwise over its batch shape [B] (Categorical) or [B, D] (Normal, Bernoulli)"""
+
+        def __init__(self, kind, did, shape, **defs):
+            self.kind, self.did, self.shape, self.defs = kind, did, shape, defs
+
+        def isinstance(self, ex, st, names):
+            return self.kind in names or "Distribution" in names
+
+        def _el(self, f, idx, *extra):
+            comp = idx[1] if len(self.shape) == 2 else z3.IntVal(0)
+            return f(z3.IntVal(self.did), z3ify(idx[0]), z3ify(comp), *extra)
+
+        def getattr(self, ex, st, name):
+            if name == "log_prob":
+                def lp(ex, st, a, k):
+                    x = a[0]
+                    if not (isinstance(x, ND) and len(x.shape) == len(self.shape) and all(ndt.same_dim(p, q) for p, q in zip(x.shape, self.shape))):
+                        raise Undecided(f"log_prob of a value of shape {getattr(x, 'shape', None)} under a distribution of batch shape {self.shape}")
+                    return ND(self.shape, lambda idx: self._el(LP, idx, TT.toreal(x.at(idx))), "logp")
+                return Fn(model=lp, name=name)
+            if name == "entropy":
+                return Fn(model=lambda ex, st, a, k: ND(self.shape, lambda idx: self._el(EN, idx), "entropy"), name=name)
+            if name == "sample":
+                return Fn(model=lambda ex, st, a, k: ND(self.shape, lambda idx: self._el(SM, idx), "sample"), name=name)
+            raise Undecided(f"distribution attribute {name}")
+    made = []
+
+    def mk(kind, drop_last):
+        def ctor(ex, st, a, k):
+            t = k.get("logits", k.get("loc", a[0] if a else None))
+            if not isinstance(t, ND):
+                raise Undecided(f"{kind} over a non-tensor")
+            d = Dist(kind, len(made), t.shape[:-1] if drop_last else list(t.shape), **k)
+            made.append(d)
+            return d
+        return ctor
+    for key, f in ndt.LIB.items():
+        old = P.lib.get(key)
+
+        def disp(ex, st, a, k, f=f, old=old):
+            flat = list(a) + list(k.values())
+            flat = [y for x in flat for y in (x if isinstance(x, (list, tuple)) else [x])]
+            if old is None or any(isinstance(x, ND) for x in flat):
+                return f(ex, st, a, k)
+            return old(ex, st, a, k)
+        P.lib[key] = disp
+    P.lib.update({"torch.distributions.Normal": mk("Normal", False), "torch.distributions.Bernoulli": mk("Bernoulli", False),
+                  "torch.distributions.Categorical": mk("Categorical", True),
+                  "torch.exp": lambda ex, st, a, k: a[0].with_(at=lambda idx: EXP(a[0].at(idx)))})
+    P.trusted.append(ndt.DOC)
+    H = NET
+    act2 = lambda D_: (lambda ex, st, l: ND([B, D_], lambda idx: ACT(z3ify(idx[0]), z3ify(idx[1])), "action"))
+
+    def rows(f):
+        b = z3.Int("b!row")
+        return z3.ForAll([b], z3.Implies(z3.And(0 <= b, b < B), f(b)))
+
+    def is_vec(r):
+        return isinstance(r, ND) and len(r.shape) == 1 and ndt.same_dim(r.shape[0], B)
+    # factorised distributions: joint log-probability / entropy = sum over the independent components, component i of the
+    # action paired with component i of the distribution
+    for kind, hname in (("Normal", "NormalHandler"), ("Bernoulli", "BernoulliHandler")):
+        for D_ in (1, 3):
+            d = Dist(kind, 7, [B, D_])
+            P.specns[f"lp_{kind}_{D_}"] = (lambda r, D_=D_: z3.BoolVal(False) if not is_vec(r) else
+                                           rows(lambda b: r.at([b]) == sum((LP(7, b, j, ACT(b, j)) for j in range(D_)), z3.RealVal(0))))
+            P.specns[f"en_{kind}_{D_}"] = (lambda r, D_=D_: z3.BoolVal(False) if not is_vec(r) else
+                                           rows(lambda b: r.at([b]) == sum((EN(7, b, j) for j in range(D_)), z3.RealVal(0))))
+            P.contract(H + hname + ".log_prob", variant=f"D{D_}", params={"self": "opaque", "distribution": (lambda ex, st, l, d=d: d), "action": act2(D_)},
+                       requires=[], modifies=[], ensures=[f"lp_{kind}_{D_}(result)"], replay="c16:logprob")
+            P.contract(H + hname + ".entropy", variant=f"D{D_}", params={"self": "opaque", "distribution": (lambda ex, st, l, d=d: d)},
+                       requires=[], modifies=[], ensures=[f"en_{kind}_{D_}(result)"], replay="c16:logprob")
+    for K in (1, 2, 3):
+        ds = [Dist("Categorical", 10 + i, [B]) for i in range(K)]
+        P.specns[f"lp_multi_{K}"] = (lambda r, K=K: z3.BoolVal(False) if not is_vec(r) else
+                                     rows(lambda b: r.at([b]) == sum((LP(10 + i, b, 0, ACT(b, i)) for i in range(K)), z3.RealVal(0))))
+        P.specns[f"en_multi_{K}"] = (lambda r, K=K: z3.BoolVal(False) if not is_vec(r) else
+                                     rows(lambda b: r.at([b]) == sum((EN(10 + i, b, 0) for i in range(K)), z3.RealVal(0))))
+        P.specns[f"sm_multi_{K}"] = (lambda r, K=K: z3.BoolVal(False) if not (isinstance(r, ND) and len(r.shape) == 2 and ndt.cp(r.shape[1]) == (K, None)) else
+                                     z3.And(*[rows(lambda b, i=i: r.at([b, z3.IntVal(i)]) == SM(10 + i, b, 0)) for i in range(K)]))
+        P.contract(H + "MultiCategoricalHandler.log_prob", variant=f"K{K}", params={"self": "opaque", "distribution": (lambda ex, st, l, ds=ds: list(ds)), "action": act2(K)},
+                   requires=[], modifies=[], ensures=[f"lp_multi_{K}(result)"], replay="c16:logprob")
+        P.contract(H + "MultiCategoricalHandler.entropy", variant=f"K{K}", params={"self": "opaque", "distribution": (lambda ex, st, l, ds=ds: list(ds))},
+                   requires=[], modifies=[], ensures=[f"en_multi_{K}(result)"], replay="c16:logprob")
+        P.contract(H + "MultiCategoricalHandler.sample", variant=f"K{K}", params={"self": "opaque", "distribution": (lambda ex, st, l, ds=ds: list(ds))},
+                   requires=[], modifies=[], ensures=[f"sm_multi_{K}(result)"], replay="c16:logprob")
+    dc = Dist("Categorical", 20, [B])
+    P.specns["lp_cat"] = lambda r: z3.BoolVal(False) if not is_vec(r) else rows(lambda b: r.at([b]) == LP(20, b, 0, ACT(b, 0)))
+    P.contract(H + "CategoricalHandler.log_prob", params={"self": "opaque", "distribution": (lambda ex, st, l: dc),
+                                                         "action": (lambda ex, st, l: ND([B], lambda idx: ACT(z3ify(idx[0]), z3.IntVal(0)), "action"))},
+               requires=[], modifies=[], ensures=["lp_cat(result)"], replay="c16:logprob")
+
+    # get_distribution: which tensors define the distribution of each space kind
+    class Space:
+        def __init__(self, cls, **kw):
+            self.cls, self.kw = cls, kw
+
+        def isinstance(self, ex, st, names):
+            return self.cls in names
+
+        def getattr(self, ex, st, name):
+            if name in self.kw:
+                return self.kw[name]
+            raise Undecided(f"space attribute {name}")
+
+    def ed_self(space, width):
+        def mkself(ex, st, label):
+            made.clear()
+            o = Obj(NET + "EvolvableDistribution", label="self")
+            lstd = ND([1, width], lambda idx: LSTD(z3ify(idx[1])), "log_std")
+            lstd_get = lstd.getattr
+
+            def ls_getattr(ex, st, name):
+                if name == "expand_as":
+                    return Fn(model=lambda ex, st, a, k: ND(a[0].shape, lambda idx: LSTD(z3ify(idx[-1])), "log_std.expanded"), name=name)
+                return lstd_get(ex, st, name)
+            lstd.getattr = ls_getattr
+            o.fields.update(dict(action_space=space, squash_output=z3.Bool("squash_flag"), log_std=lstd, device="cpu"))
+            return o
+        return mkself
+    logits = lambda W: (lambda ex, st, l: ND([B, W], lambda idx: LOG(z3ify(idx[0]), z3ify(idx[1])), "logits"))
+
+    def defined_by(dist, key, f, width, off=0):
+        t = dist.defs.get(key)
+        if not (isinstance(t, ND) and len(t.shape) == 2 and ndt.same_dim(t.shape[0], B) and ndt.cp(t.shape[1]) == (width, None)):
+            return z3.BoolVal(False)
+        b, j = z3.Int("b!db"), z3.Int("j!db")
+        return z3.ForAll([b, j], z3.Implies(z3.And(0 <= b, b < B, 0 <= j, j < width), t.at([b, j]) == f(b, j + off)))
+
+    def gd_post(kind, nvec=None):
+        def post(res):
+            if not (isinstance(res, Obj) and res.cls.endswith("TorchDistribution")):
+                return z3.BoolVal(False)
+            d, out = res.fields.get("distribution"), []
+            out.append(z3ify(res.fields.get("squash_output")) == z3.Bool("squash_flag"))
+            hn = res.fields.get("_handler")
+            want_h = {"Box": "NormalHandler", "Discrete": "CategoricalHandler", "MultiDiscrete": "MultiCategoricalHandler", "MultiBinary": "BernoulliHandler"}[kind]
+            out.append(z3.BoolVal(isinstance(hn, Obj) and hn.cls.endswith(want_h)))
+            if kind == "MultiDiscrete":
+                if not (isinstance(d, list) and len(d) == len(nvec) and all(isinstance(x, Dist) and x.kind == "Categorical" for x in d)):
+                    return z3.BoolVal(False)
+                off = 0
+                for x, n_ in zip(d, nvec):
+                    out.append(defined_by(x, "logits", LOG, n_, off))
+                    off += n_
+                return z3.And(*out)
+            want = {"Box": "Normal", "Discrete": "Categorical", "MultiBinary": "Bernoulli"}[kind]
+            if not (isinstance(d, Dist) and d.kind == want):
+                return z3.BoolVal(False)
+            out.append(defined_by(d, "loc" if kind == "Box" else "logits", LOG, 3))
+            if kind == "Box":
+                out.append(defined_by(d, "scale", lambda b, j: EXP(LSTD(j)), 3))
+            return z3.And(*out)
+        return post
+    for kind, space, W in (("Box", Space("Box", shape=(3,)), 3), ("Discrete", Space("Discrete", n=3), 3), ("MultiBinary", Space("MultiBinary", n=3), 3),
+                           ("MultiDiscrete", Space("MultiDiscrete", nvec=[2, 3]), 5)):
+        P.specns[f"gd_{kind}"] = gd_post(kind, [2, 3])
+        P.contract(NET + "EvolvableDistribution.get_distribution", variant=kind, params={"self": ed_self(space, W), "logits": logits(W)},
+                   requires=[], frame_fields=False, ensures=[f"gd_{kind}(result)"], replay="c16:logprob")
+    # apply_mask: every masked logit becomes -1e8, every other logit is unchanged, component by component
+    def mask_post_nd(res, W):
+        if not (isinstance(res, ND) and len(res.shape) == 2 and ndt.same_dim(res.shape[0], B) and ndt.cp(res.shape[1]) == (W, None)):
+            return z3.BoolVal(False)
+        b = z3.Int("b!mp")
+        return z3.And(*[z3.ForAll([b], z3.Implies(z3.And(0 <= b, b < B), z3.simplify(res.at([b, z3.IntVal(j)])) ==
+                                                  z3.If(MSK(b, j) != 0, LOG(b, j), z3.RealVal("-100000000")))) for j in range(W)])
+    maskp = lambda W: (lambda ex, st, l: ND([B, W], lambda idx: MSK(z3ify(idx[0]), z3ify(idx[1])), "mask", True))
+    for kind, space, W in (("Discrete", Space("Discrete", n=3), 3), ("MultiBinary", Space("MultiBinary", n=3), 3), ("MultiDiscrete", Space("MultiDiscrete", nvec=[2, 3]), 5),
+                           ("MultiDiscrete3", Space("MultiDiscrete", nvec=[1, 2, 2]), 5)):
+        P.specns[f"am_{kind}"] = (lambda r, W=W: mask_post_nd(r, W))
+        P.contract(NET + "EvolvableDistribution.apply_mask", variant=kind, params={"self": ed_self(space, W), "logits": logits(W), "mask": maskp(W)},
+                   requires=[], frame_fields=False, ensures=[f"am_{kind}(result)"], replay="c16:logprob", inline=(NET + "apply_action_mask_discrete",))
+    P.axioms += [B >= 1]
 
 
 def build(tier):
@@ -133,10 +327,11 @@ def build(tier):
         P.specns[f"smp_{tag}"] = (lambda result, squash=squash: z3.BoolVal(isinstance(result, MX) and result.node == (("tanh", ("sample-of-handler",)) if squash else ("sample-of-handler",))))
         P.contract(NET + "TorchDistribution.sample", variant=tag, setup=setup, params={}, requires=[], frame_fields=False,
                    ensures=[f"smp_{tag}(result)"], replay="c16:logprob")
+    nd_contracts(P)
     P.native.append(dict(name="logprob", adapter="c16:logprob", payload={"mode": "search"},
                          bound="StochasticActor over Discrete(4), MultiDiscrete([2,3]), MultiBinary(4), MultiBinary(1), Box(3), Box(1); random masks incl. an all-False "
                                "MultiBinary row; log-prob / entropy vs. torch.distributions on the raw outputs; re-evaluation of stored actions"))
     P.trusted += ["torch.distributions (densities, sampling, entropy) - outside the technique", "expression-tree execution (C19) and the row-generic Vec model (C14)"]
     P.assumptions += ["'masked actions have zero probability' relies on float underflow of exp(-1e8): not claimed (DESIGN 6)"]
-    P.uncovered += ["values of the densities; split of masks per MultiDiscrete component (native adapter only)", "StochasticActor.scale_action, PPO/IPPO call sites"]
+    P.uncovered += ["values of the densities (torch.distributions)", "PPO/IPPO call sites of evaluate_actions; StochasticActor.scale_action is under contract in C14"]
     return P
